@@ -36,6 +36,9 @@ type loader struct {
 
 	tracer *loadTracer
 
+	// Directories whose build file has been read.
+	visited map[string]bool
+
 	errList *lexing.ErrorList
 }
 
@@ -45,6 +48,7 @@ func newLoader(env *env) *loader {
 		loaded:  make(map[string]*buildNode),
 		nodes:   make(map[string]*buildNode),
 		tracer:  newLoadTracer(),
+		visited: make(map[string]bool),
 		errList: lexing.NewErrorList(),
 	}
 }
@@ -137,6 +141,11 @@ func (l *loader) registerOuts(
 }
 
 func (l *loader) readBuildFile(p string) {
+	if l.visited[p] {
+		return
+	}
+	l.visited[p] = true
+
 	subDirMap := make(map[string]bool)
 
 	nodes, errs := readBuildFile(l.env, p)
